@@ -52,6 +52,12 @@ def axisHeading (torus : Bool) (size a b : Int) : Int :=
 
 def upd {β : Type} (f : Nat → β) (k : Nat) (v : β) : Nat → β := fun x => if x = k then v else f x
 
+/-- all values, or `none` if one is missing (a lookup that raises aborts the whole comprehension) -/
+def collect {α : Type} : List (Option α) → Option (List α)
+  | [] => some []
+  | none :: _ => none
+  | some x :: xs => (collect xs).map (x :: ·)
+
 /-! ## legacy `mesa.space.ContinuousSpace` -/
 
 structure LCfg where
@@ -150,7 +156,7 @@ def ensureCache (s : LSpace) : Except Err (LSpace × List P2) :=
   match s.pts with
   | some pts => .ok (s, pts)
   | none =>
-    match s.a2i.keys.mapM s.pos with
+    match collect (s.a2i.keys.map s.pos) with
     | none => .error .type
     | some pts =>
       .ok ({ s with a2i := s.a2i.keys.zipIdx.map (fun ai => (ai.1, some ai.2)),
@@ -163,7 +169,7 @@ def getNeighbors (s : LSpace) (p : P2) (r : Int) (incl : Bool) : LSpace × Excep
   | .ok (s1, pts) =>
     let dists := pts.map (fun q => ldist2 s.cfg q p)
     let hits := dists.zipIdx.filter (fun di => di.1 ≤ r * r && (incl || di.1 > 0))
-    match hits.mapM (fun di => s1.i2a[di.2]?) with
+    match collect (hits.map (fun di => s1.i2a[di.2]?)) with
     | none => (s1, .error .key)
     | some ags => (s1, .ok ags)
 
@@ -309,9 +315,9 @@ def kNearest (argpart : List Int → Nat → List Nat) (s : ESpace) (pt : Pos) (
   else if d.length < k then .error .value
   else
     let idx := (argpart d (k - 1)).take k
-    match idx.mapM (fun i => match s.active[i]?, d[i]? with
-                             | some a, some x => some (a, x)
-                             | _, _ => none) with
+    match collect (idx.map (fun i => match s.active[i]?, d[i]? with
+                                    | some a, some x => some (a, x)
+                                    | _, _ => none)) with
     | none => .error .index
     | some res => .ok res
 
@@ -341,7 +347,7 @@ def nearestNeighbors (argpart : List Int → Nat → List Nat) (s : ESpace) (a :
 
 /-- rows selected by `agents=[…]`: `_agent_positions[[_agent_to_index[a] for a in agents]]` -/
 def rowsOf (s : ESpace) (sub : List Aid) : Except Err (List (Aid × Pos)) :=
-  match sub.mapM (fun a => (s.a2i a).map (fun i => (a, i))) with
+  match collect (sub.map (fun a => (s.a2i a).map (fun i => (a, i)))) with
   | none => .error .key
   | some ais =>
     if ais.all (fun ai => ai.2 < s.cap) then .ok (ais.map fun ai => (ai.1, s.buf ai.2))
